@@ -254,3 +254,39 @@ Definition conserve_ok (st : stats) (ins del : N) : bool :=
 
 (* number of replays of the commits *)
 Definition single_branch (l : list step) (c : N) : bool := count_commit c l =? 1.
+
+(* "every commit counted at most once / exactly once when it must be", as a judgement of a table of
+   Commits counters against a replay sequence alone (no reference to the one-shot filter).
+   A commit MUST be counted when empty commits are counted or every replay of it changes files; it MAY be
+   counted when empty commits are counted or some replay changes files.  The counter of (tick, developer)
+   lies between the number of commits that must be counted and have all their replays at that key and the
+   number of commits that may be counted and have some replay at that key. *)
+Definition step_nonempty (s : step) : bool := negb (N.of_nat (length (s_changes s)) =? 0).
+Definition key_of (s : step) : N * N := (s_tick s, s_author s).
+Definition steps_of (c : N) (l : list step) : list step := filter (fun s => s_commit s =? c) l.
+Fixpoint commits_of (l : list step) (seen : list N) : list N :=
+  match l with
+  | [] => []
+  | s :: r => if mem_n (s_commit s) seen then commits_of r seen else s_commit s :: commits_of r (s_commit s :: seen)
+  end.
+Definition must_count (cec : bool) (l : list step) (c : N) : bool := cec || forallb step_nonempty (steps_of c l).
+Definition may_count (cec : bool) (l : list step) (c : N) : bool := cec || existsb step_nonempty (steps_of c l).
+Definition upper_at (cec : bool) (l : list step) (k : N * N) : N :=
+  N.of_nat (length (filter (fun c => may_count cec l c && existsb (fun s => tkey_eqb (key_of s) k) (steps_of c l)) (commits_of l []))).
+Definition lower_at (cec : bool) (l : list step) (k : N * N) : N :=
+  N.of_nat (length (filter (fun c => must_count cec l c && forallb (fun s => tkey_eqb (key_of s) k) (steps_of c l)) (commits_of l []))).
+Fixpoint table_get (t : list ((N * N) * N)) (k : N * N) : N :=
+  match t with
+  | [] => 0
+  | (k', v) :: r => if tkey_eqb k' k then v else table_get r k
+  end.
+Definition table_total (t : list ((N * N) * N)) : N := fold_right (fun e a => snd e + a) 0 t.
+(* ... and in total: at least the commits that must, at most the commits that may be counted *)
+Definition once_ok (cec : bool) (l : list step) (table : list ((N * N) * N)) : bool :=
+  forallb (fun k => (lower_at cec l k <=? table_get table k) && (table_get table k <=? upper_at cec l k))
+          (map fst table ++ map key_of l) &&
+  (N.of_nat (length (filter (must_count cec l) (commits_of l []))) <=? table_total table) &&
+  (table_total table <=? N.of_nat (length (filter (may_count cec l) (commits_of l [])))).
+(* the Commits counters of a result *)
+Definition commits_table (ticks : list ((N * N) * devtick)) : list ((N * N) * N) :=
+  map (fun e => (fst e, dt_commits (snd e))) ticks.
